@@ -358,8 +358,8 @@ func c02Resume(c *Ctx) {
 			// the immediate decision: restrict to tests that dominate the preload call closely (any is fine for GUARD)
 			ok1, path1 := Guarded(dl.Blocks[0], pc, passPos, noret)
 			ok2, path2 := Guarded(dl.Blocks[0], pc, passHash, noret)
-			c.Check(ok1 && len(passPos) > 0, "R3", "preload:needs-offset>0", p.InstrPos(pc), "preloaded hasher used only when resuming (fromByte > 0)", "the preloaded hash state can be used for a download that starts at byte 0: "+path1)
-			c.Check(ok2 && len(passHash) > 0, "R3", "preload:needs-hash", p.InstrPos(pc), "preloaded hasher used only with a hash state", "preload reachable with a nil hash: "+path2)
+			c.Check(ok1 && nonVacuous(passPos), "R3", "preload:needs-offset>0", p.InstrPos(pc), "preloaded hasher used only when resuming (fromByte > 0)", "the preloaded hash state can be used for a download that starts at byte 0: "+path1)
+			c.Check(ok2 && nonVacuous(passHash), "R3", "preload:needs-hash", p.InstrPos(pc), "preloaded hasher used only with a hash state", "preload reachable with a nil hash: "+path2)
 			// the hasher argument is the hash parameter (or its φ)
 			hv := pc.Common().Args[1]
 			c.Check(derivesOnlyFrom(p, hv, pHash), "R3", "preload:hash-arg", p.InstrPos(pc), "the preloaded state is the hash handed in by the caller", "the preloaded hash does not come from the caller's hash of the partial file")
@@ -537,9 +537,9 @@ func c02Resume(c *Ctx) {
 					sink := lastInstr(pred)
 					ok1, path1 := Guarded(dl.Blocks[0], sink, passEq, noret)
 					ok2, path2 := Guarded(dl.Blocks[0], sink, pass206, noret)
-					c.Check(ok1 && len(passEq) > 0, "R3", "resume-accepted:content-range-start==offset", p.InstrPos(sink), "resume accepted only when the Content-Range start equals the resume offset",
+					c.Check(ok1 && nonVacuous(passEq), "R3", "resume-accepted:content-range-start==offset", p.InstrPos(sink), "resume accepted only when the Content-Range start equals the resume offset",
 						"a ranged response can be accepted although its Content-Range start was not compared equal to the resume offset: "+path1)
-					c.Check(ok2 && len(pass206) > 0, "R3", "resume-accepted:status-206", p.InstrPos(sink), "resume accepted only for status 206", "resume accepted without status 206: "+path2)
+					c.Check(ok2 && nonVacuous(pass206), "R3", "resume-accepted:status-206", p.InstrPos(sink), "resume accepted only for status 206", "resume accepted without status 206: "+path2)
 				}
 			}
 			// every use of the flag: the true branch keeps state, the false branch truncates (checked by truncate rules)
